@@ -82,6 +82,14 @@ class Renotate(Stream):
                             if nt["kind"] in "cbh" and not nt.get("dir") and rng.random() < 0.4:
                                 if rng.random() < 0.5: nt["mode"] = rng.choice(sg.MODES)
                                 else: nt["acc"] = rng.choice(sg.ACCS)
+            if i % 4 == 1:
+                # zero-length notes (.n) that are not the last element of their part: inaudible, but a relative note after one refers to it,
+                # and one may sit exactly on a split point
+                for c in sc:
+                    for _, notes in c["parts"]:
+                        for j, nt in enumerate(notes[:-1]):
+                            if nt["kind"] not in "rl" and rng.random() < 0.3 and any(F(x["dur"]) > 0 for x in notes[j + 1:]):
+                                nt["dur"] = F(0)
             second = rng.choice(RENOTATIONS) if rng.random() < 0.25 else None
             if second in NEED_EQUAL or name in NEED_EQUAL:
                 sc = fix_relative(sg.equalize(sc))
